@@ -58,7 +58,7 @@ Proof.
   - intros k z' Hz' Hn. rewrite HgS in Hz'. destruct (Hget _ _ Hz') as (z & Hz & E). apply kv_fields in E.
     destruct E as (E1 & E2 & E3 & E4 & E5). rewrite <- E4. apply (a1 k z Hz). congruence.
   - intros k k0 Hin. rewrite Hpend in Hin. apply filter_In in Hin. destruct Hin as [Hin _].
-    destruct (a2 _ _ Hin) as (z & Hz & Hk & Hs). destruct (Hget' _ _ Hz) as (z' & Hz' & E).
+    destruct (a2 _ _ Hin) as (z & Hz & Hk & Hs & Hnz). destruct (Hget' _ _ Hz) as (z' & Hz' & E).
     apply kv_fields in E. destruct E as (E1 & E2 & E3 & E4 & E5).
     exists z'. rewrite HgS. unfold kc in *. repeat split; auto; congruence.
   - intros k z' Hz' Hn Hs. rewrite HgS in Hz'. destruct (Hget _ _ Hz') as (z & Hz & E). apply kv_fields in E.
@@ -135,8 +135,17 @@ Proof.
              - rewrite Ek in Hin. apply lookup_pending_in in Hin. unfold kc in Hin. simpl in Hin. congruence.
              - rewrite Ek in Hin. unfold kc in Hin. apply cse_lookup_in in Hin. rewrite Hn in Ehit.
                destruct (cse_lookup c s (jkey x) (jctx x)) as [[?|?]|]; try discriminate; congruence. }
-           apply (K_kframe (set_pending s2 (match lookup_pending s2 (jkey x, jctx x) with
-                                             | Some _ => pending s2 | None => (jkey x, jctx x, j) :: pending s2 end)));
+           assert (HP : (if jnocse x then pending s2
+                         else (jkey x, jctx x, j) :: filter (fun p => negb (key_eqb (fst p) (jkey x, jctx x))) (pending s2))
+                        = (if jnocse x then pending s else (jkey x, jctx x, j) :: pending s)).
+           { destruct (jnocse x) eqn:Hn; [reflexivity|]. f_equal. change (pending s2) with (pending s).
+             unfold lookup_pending in Etwin.
+             destruct (find (fun p => key_eqb (fst p) (jkey x, jctx x)) (pending s)) eqn:Ef; [discriminate|].
+             clear - Ef. induction (pending s) as [|p l IH]; simpl in *; auto.
+             destruct (key_eqb (fst p) (jkey x, jctx x)); [discriminate|]. simpl. f_equal. auto. }
+           match goal with |- K (add_submit (set_pending _ ?P) _) =>
+             change (K (add_submit (set_pending s2 P) j)); replace P with (if jnocse x then pending s else (jkey x, jctx x, j) :: pending s) by (symmetry; exact HP) end.
+           apply (K_kframe (set_pending s2 (if jnocse x then pending s else (jkey x, jctx x, j) :: pending s)));
              [repeat split|].
            destruct Ks as [a1 a2 a3 a4].
            constructor; simpl pending; simpl recorded; change (getj (set_pending s2 _)) with (getj s2).
@@ -145,18 +154,20 @@ Proof.
               ** rewrite Hoth in Hz by assumption. eauto.
            ++ intros k k0 Hin.
               assert (Hcases : In (k, k0) (pending s) \/ (k, k0) = (jkey x, jctx x, j)).
-              { rewrite Hlk in Hin. destruct (lookup_pending s (jkey x, jctx x)); [left; exact Hin|].
-                destruct Hin as [<-|Hin]; auto. }
-              destruct Hcases as [Hin'|[= -> ->]].
-              ** destruct (a2 _ _ Hin') as (z & Hz & Hk & Hs). destruct (Nat.eq_dec k0 j) as [->|Hne].
-                 --- exists y. rewrite Hx in Hz. injection Hz as <-. split; [exact Hy|]. split; [exact Hk|]. simpl. lia.
+              { destruct (jnocse x); [left; exact Hin|]. destruct Hin as [<-|Hin]; auto. }
+              destruct Hcases as [Hin'|Heq].
+              ** destruct (a2 _ _ Hin') as (z & Hz & Hk & Hs & Hnz). destruct (Nat.eq_dec k0 j) as [->|Hne].
+                 --- exists y. rewrite Hx in Hz. injection Hz as <-. split; [exact Hy|]. split; [exact Hk|]. simpl. split; [lia|exact Hnz].
                  --- exists z. rewrite Hoth by assumption. auto.
-              ** exists y. split; [exact Hy|]. split; [reflexivity|]. simpl. lia.
+              ** destruct (jnocse x) eqn:Hnx.
+                 --- exfalso. injection Heq as -> ->. destruct (a2 _ _ Hin) as (z & Hz & Hk & Hs & Hnz).
+                     rewrite Hx in Hz. injection Hz as <-. congruence.
+                 --- injection Heq as -> ->. exists y. split; [exact Hy|]. split; [reflexivity|]. simpl. split; [lia|exact Hnx].
            ++ intros k z Hz Hn Hs. destruct (Nat.eq_dec k j) as [->|Hk].
               ** rewrite Hy in Hz. injection Hz as <-. left. change (kc y) with (jkey x, jctx x).
-                 rewrite Hlk. simpl in Hn. rewrite Hn in Etwin. rewrite Etwin. now left.
+                 simpl in Hn. rewrite Hn. now left.
               ** rewrite Hoth in Hz by assumption. destruct (a3 k z Hz Hn Hs) as [Hin|Hr]; [|right; exact Hr].
-                 left. rewrite Hlk. destruct (lookup_pending s (jkey x, jctx x)); [exact Hin|now right].
+                 left. destruct (jnocse x); [exact Hin|now right].
            ++ intros j1 j2 y1 y2 H1 H2 N1 N2 S1 S2 Ek.
               destruct (Nat.eq_dec j1 j) as [->|Hk1]; destruct (Nat.eq_dec j2 j) as [->|Hk2]; auto.
               ** rewrite Hy in H1. injection H1 as <-. rewrite Hoth in H2 by assumption. exfalso.
